@@ -237,21 +237,28 @@ def run(ctx, replay=None):
     S0, S3 = [(0, 0)], [(0, 0), (3, 0), (0, 1)]
 
     def mc(tag, m, steer, maxlen, chain, mode, simulate=None, workers=vlib.NCPU, timeout=1500):
-        out, st = ctx.tlc_mc("MC_BitmapStr_gen", cfg(maxlen, chain, mode, simulate is not None), tag=tag,
-                             extra_modules=[("MC_BitmapStr_gen.tla", gen_module("MC_BitmapStr_gen", m, steer))],
-                             simulate=simulate, depth=(maxlen + 2) if simulate else None, timeout=timeout, workers=workers)
-        if st["error"] or (simulate is None and st["rc"] != 0):
-            raise vlib.Infra("model run %s of MC_BitmapStr failed (model-level, not a violation): %s\n%s" % (tag, st["error"], out[-1500:]))
-        return list(vlib.tlc_printed(out, "SIM" if simulate else "STATE"))
+        for attempt in (1, 2):
+            out, st = ctx.tlc_mc("MC_BitmapStr_gen", cfg(maxlen, chain, mode, simulate is not None), tag=tag,
+                                 extra_modules=[("MC_BitmapStr_gen.tla", gen_module("MC_BitmapStr_gen", m, steer))],
+                                 simulate=simulate, depth=(maxlen + 2) if simulate else None, timeout=timeout, workers=workers,
+                                 heap="1g" if simulate else "2g")
+            done = "Finished in" in out
+            if st["error"] or (done and st["rc"] != 0):
+                raise vlib.Infra("model run %s of MC_BitmapStr failed (model-level, not a violation): %s\n%s" % (tag, st["error"], out[-1500:]))
+            if done:
+                return list(vlib.tlc_printed(out, "SIM" if simulate else "STATE"))
+            vlib.log("model run %s did not finish (rc=%s, killed?), attempt %d" % (tag, st["rc"], attempt))
+        raise vlib.Infra("model run %s of MC_BitmapStr was interrupted twice (rc=%s)" % (tag, st["rc"]))
 
     # (1) exhaustive: every value of the family, every call, every buffer length 0..needed+1
     jobs = [("full", "a", MAP_A, S3)]
     if thorough:
+        jobs = [("light", "g", groups_map(13), S0)] + jobs          # the longest run starts first
         jobs += [("full", "c", MAP_C, S3), ("full", "d", MAP_D, S0), ("full", "e", MAP_E, S0)]
         jobs += [("full", "p", MAP_P, S3)] + [("full", "r%d" % i, random_map(rng), S0) for i in range(2)]
     # (2) exhaustive round trips over larger families: set -> asprintf -> reparse
     if thorough:
-        jobs += [("light", "g", groups_map(13), S0), ("light", "e", MAP_E, S3), ("light", "d", MAP_D, S3)]
+        jobs += [("light", "e", MAP_E, S3), ("light", "d", MAP_D, S3)]
         jobs += [("light", "r%d" % i, random_map(rng), S3) for i in range(3)]
     else:
         jobs += [("light", "g", groups_map(10), S0), ("light", "c", MAP_C, S3), ("light", "p", MAP_P, S3)]
@@ -264,7 +271,7 @@ def run(ctx, replay=None):
         kind, tag, m, steer = j
         if kind == "sim":
             # one worker: the set of simulated histories is then a function of the seed
-            return mc("sim_" + tag, m, steer, 16, True, "full", simulate="num=%d" % (500 if thorough else 100), workers=1, timeout=1500)
+            return mc("sim_" + tag, m, steer, 16, True, "full", simulate="num=%d" % (300 if thorough else 100), workers=1, timeout=1500)
         return mc(kind + "_" + tag, m, steer, 3, False, kind, workers=4, timeout=3000)
 
     # exhaustive runs use 4 TLC workers each (3 at a time), simulations one worker each (4 at a time)
@@ -291,11 +298,34 @@ def run(ctx, replay=None):
     bf = ctx.path("behaviours.txt")
     open(bf, "w").write("".join(behs))
     tf = ctx.path("trace.ndjson")
-    ctx.record(exe, bf, tf, env=renv)
-    rejs = ctx.validate("TraceBitmapStr", tf, cfg=tcfg, max_rej=3)
-    if len(rejs) > 12:        # each rejection is replayed in a fresh process; a dozen is plenty to report
-        ctx.notes.append("%d rejected behaviours, the first 12 were replayed" % len(rejs))
-        rejs = sorted(rejs, key=lambda r: r["beh"] if r.get("beh") is not None else -1)[:12]
+    ctx.record(exe, bf, tf, env=renv, parallel=8 if thorough else 1)
+    # Behaviours that ended in a Crash/Hang event are validated apart (TLC still rejects each of them: no action matches):
+    # a rejection makes TLC restart on the rest of its shard, which is cheap on this small file and keeps the big one in one pass.
+    tf_ok, tf_bad = tf + ".clean", tf + ".crashed"
+    with open(tf) as fi, open(tf_ok, "w") as fo, open(tf_bad, "w") as fb:
+        cur = []
+
+        def flush():
+            if cur:
+                (fb if any(x.startswith('{"e":"Crash"') or x.startswith('{"e":"Hang"') for x in cur) else fo).writelines(cur)
+        for line in fi:
+            if line.startswith('{"e":"Reset"'):
+                flush()
+                cur = []
+            cur.append(line)
+        flush()
+    rejs = ctx.validate("TraceBitmapStr", tf_ok, cfg=tcfg, max_rej=6) if os.path.getsize(tf_ok) else []
+    if os.path.getsize(tf_bad):
+        rejs += ctx.validate("TraceBitmapStr", tf_bad, cfg=tcfg, max_rej=100000)
+    # every rejection is replayed in a fresh process; listed known findings first (cheaply recognised, a few are replayed so
+    # that they are reported), then at most a dozen of the others
+    kf = vlib.load_known_findings(ctx.prop)
+    known = [r for r in rejs if r.get("beh") is not None and vlib.match_known(kf, behs[r["beh"]], r["line"])]
+    other = [r for r in rejs if r not in known]
+    if len(known) > 3 or len(other) > 12:
+        ctx.notes.append("%d rejected behaviours match known findings (3 replayed), %d others (%d replayed)"
+                         % (len(known), len(other), min(12, len(other))))
+    rejs = known[:3] + sorted(other, key=lambda r: r["beh"] if r.get("beh") is not None else -1)[:12]
     for d in sorted(getattr(ctx, "drift", ()))[:20]:
         vlib.log("SPEC-DRIFT:", d[:600])
         ctx.notes.append("SPEC-DRIFT " + d[:300])
